@@ -123,7 +123,7 @@ def var_post(c):
     S0, S1, r = c.S0, c.S1, c.r
     g0 = guard(S0)
     return guarded(g0, wf(S1, c.uses) + [('denotation', And(isref(S1, r), semr(S1, r) == A[S0.v2l[c.a.var]])),
-                                         ('ledger', ledger(S0, S1, [r]))]) + control(S0, S1)
+                                         ('ledger', ledger(S0, S1, [r])), ('Ext', Ext(S0, S1, set(c.uses) - {'rc'}))]) + control(S0, S1)
 
 
 A_RAISES = {'_NeedsReordering': Raise(when=lambda c: And(c.S0.ctx, c.S0.lastlen >= 0), post=nr_post()),
@@ -141,7 +141,7 @@ def ite_post(c):
     S0, S1, a, r = c.S0, c.S1, c.a, c.r
     g0 = guard(S0)
     return guarded(g0, wf(S1, c.uses) + [('denotation', And(isref(S1, r), semr(S1, r) == If(semr(S0, a.g), semr(S0, a.u), semr(S0, a.v)))),
-                                         ('ledger', ledger(S0, S1, [r]))]) + control(S0, S1)
+                                         ('ledger', ledger(S0, S1, [r])), ('Ext', Ext(S0, S1, set(c.uses) - {'rc'}))]) + control(S0, S1)
 
 
 def foreign_or_dead(c, names):
@@ -185,7 +185,7 @@ def aapply_post(c):
         want = qfar(S0, a.v) if cls == 'forall' else qexr(S0, a.v)
     else:
         want = spec_connective(cls, semr(S0, a.u), semr(S0, a.v), semr(S0, a.w))
-    return guarded(g0, wf(S1, c.uses) + [('connective', And(isref(S1, r), semr(S1, r) == want)), ('ledger', ledger(S0, S1, [r]))]) \
+    return guarded(g0, wf(S1, c.uses) + [('connective', And(isref(S1, r), semr(S1, r) == want)), ('ledger', ledger(S0, S1, [r])), ('Ext', Ext(S0, S1, set(c.uses) - {'rc'}))]) \
         + control(S0, S1)
 
 
@@ -204,7 +204,7 @@ def aquant_contract(name, params, forall_term):
         g0 = guard(S0)
         fa = forall_term(c)
         return guarded(g0, wf(S1, c.uses) + [('closure', And(isref(S1, r), semr(S1, r) == If(fa, qfar(S0, a.u), qexr(S0, a.u)))),
-                                             ('ledger', ledger(S0, S1, [r]))]) + control(S0, S1)
+                                             ('ledger', ledger(S0, S1, [r])), ('Ext', Ext(S0, S1, set(c.uses) - {'rc'}))]) + control(S0, S1)
     return reg(Contract(name, params, mgr=MKEY, pre=pre, post=post, modifies=M.ALLF, ret='handle', uses={'rc', 'cache', 'qe', 'order', 'sem1'},
                         raises=dict(A_RAISES, ValueError=Raise(when=lambda c: foreign_or_dead(c, ['u']), must=True))))
 
@@ -284,7 +284,7 @@ def fapply_post(c):
     g0 = guard(S0)
     cls = CLASS_OF[a.op]
     want = spec_connective(cls, semr(S0, a.self), semr(S0, a.other), None)
-    return guarded(g0, wf(S1, c.uses) + [('connective', And(isref(S1, r), semr(S1, r) == want)), ('ledger', ledger(S0, S1, [r]))]) \
+    return guarded(g0, wf(S1, c.uses) + [('connective', And(isref(S1, r), semr(S1, r) == want)), ('ledger', ledger(S0, S1, [r])), ('Ext', Ext(S0, S1, set(c.uses) - {'rc'}))]) \
         + control(S0, S1)
 
 
@@ -332,3 +332,79 @@ reg(Contract(F + '__eq__', [('self', 'fself'), ('other', 'opthandle')], mgr=MKEY
 reg(Contract(F + '__ne__', [('self', 'fself'), ('other', 'opthandle')], mgr=MKEY, pre=lambda c: [],
              post=lambda c: [('node-inequality', c.r == Or(c.a.other_none, c.a.self != c.a.other))], ret='bool',
              raises={'ValueError': Raise(when=lambda c: And(Not(c.a.other_none), Not(same_f(c))), must=True)}))
+
+
+# ---- order comparisons (C01): `<=` is validity of the implication, `<` additionally requires different nodes ----------------
+def fle_post(strict):
+    def post(c):
+        S0, a, r = c.S0, c.a, c.r
+        g0 = guard(S0)
+        out = [('implication-holds-under-the-arbitrary-assignment', Implies(And(g0, r), Implies(semr(S0, a.self), semr(S0, a.other))))]
+        if strict:
+            out.append(('different-nodes', Implies(r, a.self != a.other)))
+        return out + control(S0, c.S1)
+    return post
+
+
+for _m, _strict in (('__le__', False), ('__lt__', True)):
+    _k = reg(Contract(F + _m, [('self', 'fself'), ('other', 'handle')], mgr=MKEY,
+                      pre=lambda c: wf(c.S, c.uses) + flive(c) + [('same-manager', same_f(c)),
+                                                                  ('live-handle:other', And(isref(c.S, c.a.other), c.S.ext[absz(c.a.other)] >= 1)),
+                                                                  ('quiet', guard(c.S))],
+                      post=fle_post(_strict), modifies=M.ALLF, ret='bool', uses={'rc', 'cache', 'sem1'},
+                      raises={'_NeedsReordering': Raise(when=lambda c: And(c.S0.ctx, c.S0.lastlen >= 0), post=lambda c: []),
+                              'RuntimeError': Raise(when=lambda c: BoolVal(True)),
+                              'ValueError': Raise(when=lambda c: BoolVal(False))},
+                      note='temporaries created inside (~self, other | ~self, bdd.true) are released by CPython when the expression has been '
+                           'evaluated: the contract makes no claim about counts (the histories of the bounded layer check them)'))
+    _k.owner = FAPPLY.owner
+
+
+# ---- thin wrappers of dd.autoref.BDD: same contract as the wrapped method of dd.bdd.BDD, seen through the handle -----------------
+def _delegate(name, target, params, conv=None, **kw):
+    """contract of a method that only forwards to `self._bdd.<target>`: pre/post/raises of the target with arguments renamed"""
+    t = REG[target]
+
+    def mk(c):
+        a = type(c.a)(**{**c.a.__dict__})
+        a.self = c.S if getattr(c, 'S', None) is not None else c.a.self
+        if conv:
+            conv(a)
+        return type(c)(**{**c.__dict__, 'a': a})
+    k = reg(Contract(name, params, mgr=MKEY, pre=lambda c: t.pre(mk(c)), post=lambda c: t.post(mk(c)), modifies=t.modifies, ret=t.ret,
+                     uses=t.uses, raises={e_: Raise(when=(lambda c, rs=rs: rs.when(mk(c))), post=(None if rs.post is None else (lambda c, rs=rs: rs.post(mk(c)))),
+                                                    must=rs.must) for e_, rs in t.raises.items()}, **kw))
+    return k
+
+
+_delegate(AB + 'add_var', 'dd.bdd.BDD.add_var', [('self', 'abdd'), ('var', 'name'), ('level', 'optint')])
+_delegate(AB + 'var_at_level', 'dd.bdd.BDD.var_at_level', [('self', 'abdd'), ('level', 'int')])
+_delegate(AB + 'level_of_var', 'dd.bdd.BDD.level_of_var', [('self', 'abdd'), ('var', 'name')])
+_delegate(AB + 'collect_garbage', 'dd.bdd.BDD.collect_garbage', [('self', 'abdd')], conv=lambda a: setattr(a, 'roots', None))
+
+
+def _node_of(nm):
+    def conv(a):
+        setattr(a, nm, getattr(a, nm))
+    return conv
+
+
+reg(Contract(AB + 'incref', [('self', 'abdd'), ('u', 'handle')], mgr=MKEY,
+             pre=lambda c: [('ref', isref(c.S, c.a.u))], post=lambda c: [('count', bump(c.S0, c.S1, c.a.u, 1))], modifies=['ref', 'ext'], ret='none',
+             note='an explicit extra reference taken by the user through the manager: external (+1), to be given back with decref'))
+reg(Contract(AB + 'decref', [('self', 'abdd'), ('u', 'handle'), ('kw', 'opaque')], mgr=MKEY,
+             pre=lambda c: [('ref', isref(c.S, c.a.u)), ('holder-has-a-reference', And(c.S.ext[absz(c.a.u)] >= 1, c.S.ref[absz(c.a.u)] >= 1))],
+             post=lambda c: [('count', bump(c.S0, c.S1, c.a.u, -1))], modifies=['ref', 'ext'], ret='none'))
+
+reg(Contract(AB + 'find_or_add', [('self', 'abdd'), ('var', 'name'), ('low', 'handle'), ('high', 'handle')], mgr=MKEY,
+             pre=lambda c: wf(c.S, c.uses) + [live(c, 'low'), live(c, 'high'), ('same-manager', And(same(c, 'low'), same(c, 'high'))),
+                                              ('ordered', And(c.S.v2l[c.a.var] < lv(c.S, c.a.low), c.S.v2l[c.a.var] < lv(c.S, c.a.high)))],
+             post=lambda c: wf(c.S1, c.uses) + [
+                 ('denotation', And(isref(c.S1, c.r), semr(c.S1, c.r) == If(A[c.S0.v2l[c.a.var]], semr(c.S0, c.a.high), semr(c.S0, c.a.low)))),
+                 ('ledger', ledger(c.S0, c.S1, [c.r])), ('Ext', Ext(c.S0, c.S1, set(c.uses) - {'rc'})),
+                 ('reordering-setting-kept', And(c.S1.lastlen == c.S0.lastlen, c.S1.ctx == c.S0.ctx))],
+             modifies=M.ALLF, ret='handle', uses={'rc', 'cache', 'order'},
+             raises={'ValueError': Raise(when=lambda c: Or(Not(c.S0.vin[c.a.var]), c.a.low == 0, c.a.high == 0), post=lambda c: [
+                 ('reordering-setting-kept', And(c.S1.lastlen == c.S0.lastlen, c.S1.ctx == c.S0.ctx))]),
+                 'RuntimeError': Raise(when=lambda c: BoolVal(True))},
+             note='requests are suspended around the primitive and restored in `finally` (fix 47be9a0): the signal cannot escape'))
